@@ -573,7 +573,7 @@ class Client(base_client.BaseClient):
                 self.queue.task_done()
                 packets = []
             else:
-                while True:
+                while len(packets) < payload.Payload.max_decode_packets:
                     try:
                         packets.append(self.queue.get(block=False))
                     except self.queue.Empty:
